@@ -599,11 +599,11 @@ def tasks(tier):
     T = []
     # thorough: the property's grid - every RSA modulus size from 512 to 16384 bits in steps of 64 (n = bits/8 + 1 bytes with the leading zero) - plus moduli
     # without a leading zero byte and two odd lengths off the grid
-    nls = [65, 129, 257, 385, 513] if q else sorted(set(list(range(65, 2050, 8)) + list(range(64, 2049, 64)) + [97, 258, 1027]))
+    nls = [65, 129, 257, 385, 513, 1793, 2049] if q else sorted(set(list(range(65, 2050, 8)) + list(range(64, 2049, 64)) + [97, 258, 1027]))
     for n in nls:
         T.append(Extract('ssh-rsa', n))
     T.append(Extract('ssh-ed25519', 32))
-    for ca, calens in (('ssh-rsa', [129, 257, 513] if q else list(range(65, 1026, 32)) + [128, 256, 2049]), ('ssh-ed25519', [32]),
+    for ca, calens in (('ssh-rsa', [129, 257, 513, 2049] if q else list(range(65, 1026, 32)) + [128, 256, 2049]), ('ssh-ed25519', [32]),
                        ('ecdsa-sha2-nistp256', [32]), ('ecdsa-sha2-nistp384', [48]), ('ecdsa-sha2-nistp521', [66])):
         for cl in calens:
             T.append(Extract('ssh-rsa-cert', 257, ca, cl))
@@ -634,7 +634,7 @@ def tasks(tier):
         T.append(Reporting(kt, ca))
     T.append(TruncatedBlob('modulus'))
     T.append(TruncatedBlob('hostkey-field'))
-    for bits in ((1024, 2048, 3072) if q else (1024, 1536, 2048, 3008, 3072, 4096, 8192)):
+    for bits in ((1024, 2048, 3072, 16384) if q else (1024, 1536, 2048, 3008, 3072, 4096, 8192, 14336, 16384)):
         for names in ((('ssh-rsa',), ('rsa-sha2-512', 'rsa-sha2-256', 'ssh-rsa')) if q else (('ssh-rsa',), ('rsa-sha2-256',), ('rsa-sha2-512', 'rsa-sha2-256', 'ssh-rsa'), ('ssh-rsa', 'rsa-sha2-512'))):
             T.append(AuditHostKey(bits, names))
     for bits in ((2048,) if q else (1024, 2048, 3072)):
